@@ -116,6 +116,7 @@ func cmdRun(args []string) int {
 	rat := fs.Bool("rat", false, "rational float abstraction")
 	gfsum := fs.Bool("gfsum", false, "summarise GaloisField.Multiply by the reference product")
 	tlimit := fs.Duration("tl", 0, "time limit per instance")
+	redir := fs.String("redirect", "", "from=pkg:Func[,from=pkg:Func] call redirections (summaries / stubs)")
 	fs.Parse(args)
 	e, err := setup(*repo, *verif, *z3, 12)
 	defer e.close()
@@ -143,8 +144,18 @@ func cmdRun(args []string) int {
 			inst.Config[p[0]] = v
 		}
 		inst.TimeLimit = *tlimit
+		if *redir != "" {
+			inst.Redirect = map[string]string{}
+			for _, kv := range strings.Split(*redir, ",") {
+				p := strings.SplitN(kv, "=", 2)
+				inst.Redirect[p[0]] = p[1]
+			}
+		}
 		if *gfsum {
-			inst.Redirect = map[string]string{"(*github.com/boombuler/barcode/utils.GaloisField).Multiply": "utils:VPGFMulSummary"}
+			if inst.Redirect == nil {
+				inst.Redirect = map[string]string{}
+			}
+			inst.Redirect["(*github.com/boombuler/barcode/utils.GaloisField).Multiply"] = "utils:VPGFMulSummary"
 		}
 		insts = append(insts, inst)
 	}
@@ -277,6 +288,12 @@ func cmdCheck(args []string) int {
 	}
 	insts := spec.Instances(obs, *tier, seed)
 	for _, in := range insts {
+		if in.TimeLimit == 0 {
+			in.TimeLimit = 8 * time.Minute
+			if *tier == "thorough" {
+				in.TimeLimit = 45 * time.Minute
+			}
+		}
 		for _, k := range known {
 			if k.Status == "known" && k.Property == *prop && (k.Harness == "" || k.Harness == in.Func) {
 				in.Known = append(in.Known, exec.KnownPred{ID: k.ID, Label: k.Label, Constraints: k.Constraints})
